@@ -6,6 +6,7 @@ sys.path.insert(0, os.path.join(VERIF, "harness", "llsym"))
 import core, z3
 from core import bv, is_sym
 from replay import Tr
+from fault import succeeded, failed_now, OpFailed
 from seqcheck import beq, conj, disj, ule, elems_eq, eq64
 
 PID = "C05"
@@ -328,7 +329,7 @@ class Que:
     # operations
     def push(self, side):
         p = self.tr.call("a_que_push_" + side, self.q, ret="ptr")
-        self.ex.check(p != 0, "push_%s:unexpected-failure" % side)
+        succeeded(self.ex, p != 0, "push_%s:unexpected-failure" % side)
         self.ex.check(p - 16 not in [a - 16 for a, _ in self.model], "push_%s:node-handed-out-while-enqueued" % side)
         t = self.fill(p)
         if side == "fore":
@@ -339,6 +340,9 @@ class Que:
 
     def pull(self, side):
         p = self.tr.call("a_que_pull_" + side, self.q, ret="ptr")
+        if failed_now(self.ex):
+            self.ex.check(p == 0, "pull_%s:allocation-failure-not-reported" % side)
+            raise OpFailed()
         if not self.model:
             self.ex.check(p == 0, "pull_%s:empty-must-return-null" % side)
             self.check("pull_%s-empty" % side)
@@ -363,7 +367,7 @@ class Que:
     def op_insert(self):
         idx, pos = self.idx_arg("ins")
         p = self.tr.call("a_que_insert", self.q, idx, ret="ptr")
-        self.ex.check(p != 0, "insert:unexpected-failure")
+        succeeded(self.ex, p != 0, "insert:unexpected-failure")
         t = self.fill(p)
         self.model.insert(pos if pos is not None else len(self.model), (p, t))
         self.check("insert")
@@ -371,6 +375,9 @@ class Que:
     def op_remove(self):
         idx, pos = self.idx_arg("rem")
         p = self.tr.call("a_que_remove", self.q, idx, ret="ptr")
+        if failed_now(self.ex):
+            self.ex.check(p == 0, "remove:allocation-failure-not-reported")
+            raise OpFailed()
         if not self.model:
             self.ex.check(p == 0, "remove:empty-must-return-null")
             return self.check("remove-empty")
@@ -442,7 +449,7 @@ class Que:
         self.tr.store_bytes(key, kb)
         old = list(self.model)
         p = self.tr.call("a_que_push_sort", self.q, key, self.cmp, ret="ptr")
-        ex.check(p != 0, "push_sort:unexpected-failure")
+        succeeded(ex, p != 0, "push_sort:unexpected-failure")
         self.tr.store_bytes(p, kb)       # the caller fills the slot with the key
         cur = ex.load(self.q, I64)
         order = []
@@ -473,24 +480,31 @@ class Que:
 
     def op_drop(self):
         rc = self.tr.call("a_que_drop", self.q, 0, ret="i32")
-        self.ex.check(rc == 0, "drop:unexpected-failure")
+        succeeded(self.ex, rc == 0, "drop:unexpected-failure")
         self.model = []
         self.check("drop")
-        self.push("back")
+        if not armed(self.ex):
+            self.push("back")
 
     def op_setz(self):
         z = self.ex.pick([0, 1, 3], "setz")
         rc = self.tr.call("a_que_setz", self.q, z, 0, ret="i32")
-        self.ex.check(rc == 0, "setz:unexpected-failure")
+        succeeded(self.ex, rc == 0, "setz:unexpected-failure")
         self.siz = z or 1
         self.model = []
         self.check("setz")
-        self.push("back")
-        self.push("fore")
+        if not armed(self.ex):
+            self.push("back")
+            self.push("fore")
 
 
 def s64(v):
     return v - (1 << 64) if v >> 63 else v
+
+
+def armed(ex):
+    f = getattr(ex, "fault", None)
+    return f is not None and f.armed
 
 
 def que_harness(hist, op):
